@@ -12,16 +12,11 @@ MANIFEST = dict(
     technique="Lean 4 proof (case analysis over an inductive closure of emitters; composition with the C17 codec theorem) + differential correspondence run over introspected emitters",
     design="5/C02",
 )
-GEN = ["Methods"]
-THEOREMS = [
-    "c02_emit_valid",
-    "c02_parse_emit",
-    "c02_nested_null_preserved",
-    "c02_payload_verbatim",
-    "c02_wire_roundtrip",
-    "c02_wire_single_line",
-    "c02_constructor_errors",
-    # extension: notification layer, error classes, client-side answers (Gen/Methods.lean is regenerated)
+GEN: list = []
+# supplementary (Props/C02Supp.lean): the notification layer, handlers, dispatcher, predicates, error classes and the client-side
+# answers; Gen/Methods.lean (regenerated method tables, completion limit, default codes) is needed by them only
+SUPP_GEN = ["Methods"]
+SUPP_THEOREMS = [
     "c02_methods_translated",
     "c02_method_tables_consistent",
     "c02_notification_senders_built",
@@ -38,6 +33,17 @@ THEOREMS = [
     "c02_roots_manager_notifications",
     "c02_to_specific_type",
     "c02_parse_batch_legacy_items",
+    "c02_instances_independent",
+]
+THEOREMS = [
+    "c02_emit_valid",
+    "c02_parse_emit",
+    "c02_nested_null_preserved",
+    "c02_payload_verbatim",
+    "c02_wire_roundtrip",
+    "c02_wire_single_line",
+    "c02_constructor_errors",
+    "c02_send_message_id_kept",
 ]
 RULE = (
     "emitters enumerated by introspection of the package at run time (create_* constructors, JSONRPCMessage.create_* class "
@@ -79,6 +85,8 @@ QUICK_IDS = [{"i": 0}, {"i": -1}, {"i": 2 ** 63}, {"i": 2 ** 64 - 1}, J.S(""), J
 TEXTS = [J.cps("x"), J.cps(""), J.cps("tools/call"), J.cps("a\"b\\c\n\x00\x1f\x7f"), J.cps("é  \U0001F600")]
 HOSTILE = [J.cps(t) for t in ["%", "%s %d", "%(x)s", "{}", "{0}", "{x}", "\r\n", "\n", "\u2028\u2029\u0085", "'", "\"", "\\", "\\\"", " ", "0", "false",
                                 "null", "None", "2.0", "jsonrpc"]]
+import random as _random
+HOSTILE += [J.cps(t) for t in J.syntax_texts(_random.Random(0), 0)]  # text that looks like JSON / event-stream / header syntax
 HOSTILE.append(J.of_py("%s {} \n" * 12_500)["s"])  # ~100 kB, in the compact transport form
 TWINS = {"o": [[J.cps("l"), {"a": [{"i": 1}, True, {"f": (1.0).hex()}, J.S("1")]}],
                [J.cps("z"), {"a": [{"i": 0}, False, {"f": (0.0).hex()}, J.S(""), None, {"a": []}, {"o": []}]}],
@@ -277,6 +285,11 @@ def gen_cases(ctx, budget, names):
             for en in ENUM_METHODS:
                 for progress in (False, True):
                     out.append(_case(name, method_enum=en, params=SPECIAL_PAYLOADS[1], mid=J.cps(" 7 "), progress=progress))
+            for mid_id in [{"i": 7}, {"i": -1}, {"i": 2 ** 53 + 1}, {"i": 2 ** 63}, {"i": 2 ** 64 - 1}, {"i": -(2 ** 63)}, {"i": 0}, J.S("7"), J.S(""), J.S(" 7 "),
+                           J.S("0"), J.S("-1")]:
+                for progress in (False, True):
+                    out.append(_case(name, method=pick_text(), params=rng.choice([None, TWINS, META_PAYLOADS[0]]), mid_id=mid_id, progress=progress))
+                out.append(_case(name, method=pick_text(), params=None, mid_id=mid_id, cancel=rng.choice([1, 512]), tie=rng.choice(["events", "timers", "io"])))
             for p in META_PAYLOADS:  # caller `_meta` x progress callback x cancellation token
                 for progress in (False, True):
                     out.append(_case(name, method=pick_text(), params=p, mid=J.cps("7"), cancel=rng.choice([1, 512, 513]), tie=rng.choice(["events", "timers", "io"]),
@@ -294,7 +307,7 @@ def gen_cases(ctx, budget, names):
                 for j, t in enumerate(TEXTS):
                     out.append(_case(name, opt=opt, text=t, payload=SPECIAL_PAYLOADS[(k * len(TEXTS) + j) % len(SPECIAL_PAYLOADS)], id=pick_id()))
             pn = inspect_params(name)
-            for bad in ("name", "arguments"):
+            for bad in ("name", "arguments", "uri", "cursor", "level"):
                 if bad in pn:
                     out.append(_case(name, text=pick_text(), payload=TWINS, badtype=bad))
             for t in rng.sample(HOSTILE + texts[-8:], 6 if quick else len(HOSTILE) + 8):
@@ -320,12 +333,22 @@ def gen_cases(ctx, budget, names):
                     for i in ids:
                         out.append(_case(name, id=i, method=J.cps(method), params=params, text=pick_text(),
                                          payload=rng.choice([J.S("txt"), SPECIAL_PAYLOADS[0], {"a": [J.S("a"), {"i": 1}]}, None, {"i": 5}])))
+                    key = "name" if "tools/call" in method else ("uri" if "resources/read" in method else None)
+                    if key and params is not None and "ok" in R.s_(params["o"][0][1].get("s", [])):
+                        for v in [None, True, False, {"i": 7}, {"i": 0}, {"f": (1.5).hex()}, J.S(""), {"a": []}, {"a": [J.S("ok")]}, {"o": []}, {"o": [[J.cps("ok"), None]]}]:
+                            out.append(_case(name, id=pick_id(), method=J.cps(method), params={"o": [[J.cps(key), v]]}, text=pick_text(), opts=rng.random() < 0.5))
+                        if key == "name":
+                            for args_ in [None, {"a": []}, J.S("s"), {"i": 7}, True, {"o": [[J.cps("x"), None]]}, {"o": [[J.cps(""), {"i": 1}]]}]:
+                                out.append(_case(name, id=pick_id(), method=J.cps(method), params={"o": [[J.cps("name"), J.S("ok")], [J.cps("arguments"), args_]]},
+                                                 text=pick_text(), payload=TWINS, opts=rng.random() < 0.5))
+                        for i in ids[:3]:
+                            out.append(_case(name, id=i, method=J.cps(method), params=params, text=pick_text(), payload=TWINS, opts=True))
                     if params is not None and "bad" in R.s_(params["o"][0][1].get("s", [])):
                         for ek in R.EXC_KINDS:
-                            out.append(_case(name, id=pick_id(), method=J.cps(method), params=params, text=pick_text(), exc=ek))
+                            out.append(_case(name, id=pick_id(), method=J.cps(method), params=params, text=pick_text(), exc=ek, opts=rng.random() < 0.5))
             else:
                 scen = {
-                    "handle_message": ["unknown", "no-method", "custom-result", "custom-raises", "ping", "initialize"],
+                    "handle_message": ["unknown", "no-method", "custom-result", "custom-raises", "ping", "initialize", "reentrant", "reentrant-raises"],
                     "method:ping": ["ping"], "method:initialize": ["initialize"], "method:notifications/initialized": ["initialized"],
                 }.get(short)
                 if scen is None:
@@ -334,7 +357,7 @@ def gen_cases(ctx, budget, names):
                 for sc in scen:
                     method = {"ping": "ping", "initialize": "initialize", "initialized": "notifications/initialized"}.get(sc, "x/custom")
                     for i in ids:
-                        plist = [None, SPECIAL_PAYLOADS[0]] if sc != "custom-result" else FALSY + [{"a": [None]}, TWINS] + SPECIAL_PAYLOADS[:3]
+                        plist = [None, SPECIAL_PAYLOADS[0]] if sc not in ("custom-result", "reentrant") else FALSY + [{"a": [None]}, TWINS] + SPECIAL_PAYLOADS[:3]
                         for p in plist:
                             params = None
                             if sc == "initialize":
@@ -384,15 +407,22 @@ def gen_cases(ctx, budget, names):
                     for steps in orders:
                         for p in [None, {"o": []}, SPECIAL_PAYLOADS[0], SPECIAL_PAYLOADS[5] if len(SPECIAL_PAYLOADS) > 5 else TWINS]:
                             out.append(_case(name, steps=steps, ids=idp, method=pick_text(), params=p))
+                elif name == "seq:twins":
+                    for kind_, steps_ in (("handler", ["x/ok", "x/bad", "ping", "initialize", "nope"]), ("server", ["tools/call", "tools/call:bad", "resources/read", "tools/list", "ping"]),
+                                         ("batch", ["ping", "bad", "ping"])):
+                        for n_ in (2, 3):
+                            steps = [[rng.randrange(n_), rng.choice(steps_), rng.choice(idp)] for _ in range(rng.randrange(4, 10))]
+                            out.append(_case(name, kind=kind_, n=n_, steps=steps, payload=rng.choice(FALSY + [TWINS]), text=pick_text(), exc=rng.choice(R.EXC_KINDS)))
                 elif name == "seq:handler-reuse":
-                    orders = [["initialize", "initialize", "ping"], ["x/ok", "x/bad", "x/ok"], ["x/bad", "x/bad", "ping"],
+                    orders = [["x/bad"] * k + ["x/ok", "ping"] for k in (2, 3, 4)] + [["nope"] * 3 + ["x/ok"], ["x/ok", "x/bad", "x/ok", "x/bad", "x/bad", "x/ok"]]
+                    orders += [["initialize", "initialize", "ping"], ["x/ok", "x/bad", "x/ok"], ["x/bad", "x/bad", "ping"],
                               ["ping", "nope", "x/ok", "initialize"], ["initialize", "x/ok", "ping", "x/bad"]]
                     for steps in orders:
                         for session in (False, True):
                             out.append(_case(name, steps=steps, ids=idp, session=session, payload=rng.choice(FALSY + [TWINS]),
                                              text=pick_text(), exc=rng.choice(R.EXC_KINDS), version=rng.choice([J.cps("2025-06-18"), J.cps("1999-01-01"), J.cps("")])))
                 else:
-                    orders = [["bad", "bad"], ["bad", "version:2025-06-18", "bad"], ["version:2025-06-18", "ping", "version:2025-03-26", "bad"],
+                    orders = [["mixed"], ["mixed", "mixed"], ["bad", "bad", "bad", "bad", "ping"], ["bad", "bad"], ["bad", "version:2025-06-18", "bad"], ["version:2025-06-18", "ping", "version:2025-03-26", "bad"],
                               ["ping", "bad", "version:", "bad"]]
                     for steps in orders:
                         out.append(_case(name, steps=steps, ids=idp, text=pick_text(), exc=rng.choice(R.EXC_KINDS),
@@ -416,6 +446,8 @@ def gen_cases(ctx, budget, names):
             kinds = R.CREATED_INNERS + R.DIRECT_INNERS + (R.STDIO_ONLY_INNERS if "stdio" in name else [])
             for n in ((99, 100, 101) if quick and "stdio" in name else (101,) if quick else (1, 99, 100, 101, 102, 250, 1000)):  # around the 100-slot memory streams
                 out.append(_case(name, inner="burst", n=n, method=pick_text(), params=rng.choice([None, TWINS]), id={"i": 0}))
+            for n in ((100_000, 300_000) if quick else (100_000, 300_000, 1_000_000, 3_000_000)):  # far above the 64 KiB chunks of pipes and streams
+                out.append(_case(name, inner="big-between-small", n=n, method=pick_text(), id=pick_id()))
             big = {"o": [[J.cps("t"), {"s": HOSTILE[-1]}], [J.cps("n"), None]]}  # ~100 kB in one message (64 KiB pipe chunks)
             for inner in ("request", "direct-notification", "dict", "response"):
                 out.append(_case(name, inner=inner, id=pick_id(), method=pick_text(), params=big, result=big, code=0, message=HOSTILE[-1], data=big))
@@ -425,7 +457,8 @@ def gen_cases(ctx, budget, names):
             for ki, inner in enumerate(kinds):
                 for i in (ids[ki % 2::2] if quick else ids):
                     for p in [None, {"o": []}] + SPECIAL_PAYLOADS[:4]:
-                        a = dict(inner=inner, id=i, method=pick_text(), params=p, result=p, code=rng.choice(codes), message=pick_text(), data=p)
+                        a = dict(inner=inner, id=i, method=pick_text(), params=p, result=p, code=rng.choice(codes), message=pick_text(), data=p,
+                                 opts=rng.choice([0, 0, 1, 2]))
                         out.append(_case(name, **a))
                 if "request" in inner or "notification" in inner:
                     for en in ENUM_METHODS[:2]:
@@ -443,6 +476,22 @@ def gen_cases(ctx, budget, names):
                 cs = by_em[em_name]
                 for c in rng.sample(cs, min(len(cs), 2 if quick else 8)):
                     out.append(_case(name, inner={"emitter": c["emitter"], "args": c["args"]}))
+    det = {"ctor", "server", "dict", "literal", "convert", "answer"}
+    seen_rep = set()
+    for i, c in enumerate(out):
+        fam_ = D.get(c["emitter"], ("",))[0]
+        b = (c["emitter"], branch_of(c))
+        if fam_ in det and (i % 9 == 0 or b not in seen_rep):
+            c["repeat_mutate"] = 1 + (i % 3 == 0)   # emit, let a consumer edit the emitted payload in place, emit again
+            seen_rep.add(b)
+        if i % 37 == 0:
+            c["env"] = {"SKIP_JSONRPC_VALIDATION": "true"}  # the documented switch of the legacy class; emitters must not depend on it
+    seen_branch = set()
+    for i, c in enumerate(out):
+        b = (c["emitter"], branch_of(c))
+        if i % 4 == 0 or b not in seen_branch:
+            c["debug_log"] = True
+        seen_branch.add(b)
     return out
 
 
@@ -656,6 +705,17 @@ def without_stale_token(caller_t):
     return strip_token(caller_t, caller_t)[0]
 
 
+def without_error_text(w):
+    if not (isinstance(w, dict) and "o" in w):
+        return w
+    out = []
+    for k, v in w["o"]:
+        if R.s_(k) == "error" and isinstance(v, dict) and "o" in v:
+            v = {"o": [[k2, v2] for k2, v2 in v["o"] if R.s_(k2) != "message"]}
+        out.append([k, v])
+    return {"o": out}
+
+
 def canon_opt(t):
     return None if t is None else canon(t)
 
@@ -668,7 +728,7 @@ def expected_payload(case):
     if fam == "ctor" or fam == "transport":
         inner = a.get("inner")
         if fam == "transport":
-            if isinstance(inner, dict) or inner in ("list", "burst"):
+            if isinstance(inner, dict) or inner in ("list", "burst", "big-between-small"):
                 return []
             short = inner_ctor(inner)
             if "legacy-response" in inner:
@@ -702,7 +762,9 @@ def expected_payload(case):
     if fam == "send_message":
         if a.get("cancel") == "pre":
             return []  # only the cancellation notification is written
-        return [("params+token" if a.get("progress") else "params", a.get("params"))] + ([("id", {"s": a["mid"]})] if a.get("mid") else [])
+        given = a.get("mid_id") if a.get("mid_id") is not None else ({"s": a["mid"]} if a.get("mid") else None)
+        truthy = given is not None and (given.get("i", 1) != 0) and (given.get("s", [1]) != [])
+        return [("params+token" if a.get("progress") else "params", a.get("params"))] + ([("id", given)] if truthy else [])
     if fam == "helper":
         # the typed helpers hand caller-supplied dicts through: `arguments` (tools/call, prompts/get; an empty one may be
         # left out) and `metadata` (sampling)
@@ -713,8 +775,15 @@ def expected_payload(case):
             out.append(("params.arguments", pl))
         if "metadata" in pn and pl is not None:
             out.append(("params.metadata", pl))
+        if a.get("id") is not None:  # the id / token given is the id / token sent, JSON type included
+            if "request_id" in pn:
+                out.append(("params.requestId", a["id"]))
+            if "progress_token" in pn:
+                out.append(("params.progressToken", a["id"]))
         return out
-    if fam == "server" and a.get("scenario") == "custom-result":
+    if fam == "literal" and a.get("id") is not None and getattr(R.drivers()[em][1], "id_direct", False):
+        return [("id", a["id"])]
+    if fam == "server" and a.get("scenario") in ("custom-result", "reentrant"):
         r = a.get("payload")
         return [("result", {"o": []} if r is None else r), ("id", a.get("id"))]
     if fam == "server":
@@ -779,7 +848,17 @@ class Emitters(Suite):
                 r = check_emitted(case, e, form)
                 if r is not None:
                     return r
+        if o.get("repeated") and o.get("first_wires") is not None:
+            last = [e.get("dump", {}).get("wire") for e in o["emitted"]]
+            strip = (lambda w: without_error_text(w)) if case["args"].get("exc") else (lambda w: w)  # exception texts may carry object addresses
+            if "create_request" in case["emitter"] and case["args"].get("id") is None:
+                strip = lambda w: {"o": [[k, v] for k, v in w["o"] if R.s_(k) != "id"]} if isinstance(w, dict) and "o" in w else w  # noqa: E731 (a fresh uuid each time)
+            if [canon_opt(strip(x)) for x in last] != [canon_opt(strip(x)) for x in o["first_wires"]]:
+                return ("emission-depends-on-history", f"{case['emitter']}: called again with the same arguments after a consumer edited the payload of the "
+                        f"earlier emission in place, it emits {last} instead of {o['first_wires']}", {"emitted": o["first_wires"]})
         ex = o.get("extra") or {}
+        if ex.get("independent") is False:
+            return ("instances-interfere", f"{case['emitter']} ({case['args'].get('kind')}): {ex.get('detail')}", {"independent": True})
         if "caller_after" in ex and canon_opt(ex["caller_after"]) != canon_opt(ex["caller_before"]):
             how = "adds _meta.progressToken only" if canon_opt(strip_token(ex["caller_after"], ex["caller_before"])[0] if ex["caller_after"] else None) == \
                 canon_opt(without_stale_token(ex["caller_before"]) if ex["caller_before"] is not None else None) else "changes more than _meta.progressToken"
@@ -896,7 +975,7 @@ class EmittersFallback(Emitters):
         cs = super().cases(ctx, budget)
         if budget == "quick":
             # reduced pass: every case whose payload carries a null nested at depth >= 2, every 3rd other case
-            cs = [c for i, c in enumerate(cs) if i % 4 == 0 or has_nested_null(c)]
+            cs = [c for i, c in enumerate(cs) if i % 6 == 0 or has_nested_null(c)]
         return cs
 
     def run_impl(self, cases):
@@ -974,7 +1053,7 @@ def model_line_for(case, o):
         inner = a.get("inner")
         if isinstance(inner, dict):
             return model_line_for({"emitter": inner["emitter"], "args": inner.get("args") or {}}, o)
-        if inner in ("dict-extra", "list", "burst") or (inner in R.STDIO_ONLY_INNERS and "stdio" not in em):
+        if inner in ("dict-extra", "list", "burst", "big-between-small") or (inner in R.STDIO_ONLY_INNERS and "stdio" not in em):
             return None  # extra members / several messages / nothing sent: property oracle only
         sh = inner_ctor(inner)
         if "legacy-response" in inner:  # a dict result, `{}` otherwise
@@ -995,7 +1074,8 @@ def model_line_for(case, o):
             meta = members((members(mem["params"]) or {}).get("_meta")) or {}
             t = meta.get("progressToken")
             tok = t.get("s", []) if isinstance(t, dict) else []
-        return {**base, "ctor": "send_message_request", "method": method_cps(a), "params": a.get("params"), "mid": a.get("mid"),
+        mid = a.get("mid_id") if a.get("mid_id") is not None else (None if a.get("mid") is None else {"s": a["mid"]})
+        return {**base, "ctor": "send_message_request", "method": method_cps(a), "params": a.get("params"), "mid": mid,
                 "fresh_id": fresh_id, "fresh_tok": tok, "progress": bool(a.get("progress"))}
     if mem is None:
         return None  # nothing emitted by a helper / scenario: nothing to compare (the oracle has no claim either)
